@@ -69,6 +69,13 @@ def compare_stream(ctx, name, mmh_args, stats, stdin_data=None):
                 continue
             mvm, mwasm, info = g[1], g[2], g[3]
             mmem = g[4] if len(g) > 4 else mwasm
+            # the two queue models with the literal BinaryHeap port inside (Vm.runH / W.runH stdHeap: what the
+            # `..._on_binary_heap` theorems are about) must predict what the oracle-heap models predict
+            if len(g) > 6 and (g[5] != mvm or g[6] != mwasm):
+                problems.append({"kind": "case", "level": "model-sanity", "stream": name, "table": table, "vm": f[6], "wasm": f[7],
+                                 "model_vm": mvm, "model_wasm_queue": mwasm, "model_vm_binary_heap": g[5],
+                                 "model_wasm_binary_heap": g[6], "size": len(table)})
+                continue
             stats["prog_cases"] += 1
             inf = dict(kv.split("=") for kv in info.split(";"))
             stats["execs_hist"][bucket(int(inf["execs"]))] += 1
@@ -129,7 +136,7 @@ def compare_stream(ctx, name, mmh_args, stats, stdin_data=None):
 def main(ctx, args):
     ctx.assumptions += [
         "model Model/Sched.lean is a hand port of mimium-scheduler/src/{scheduler,wasm_handle}.rs and of the on_sample-then-dsp order of VmDspRuntime/WasmDspRuntime::run_dsp; the tie is the correspondence run below",
-        "std::collections::BinaryHeap is taken to be a priority queue ordered by Task::cmp (`when` only; tie order = arbitrary oracle in the theorems), std::sync::mpsc to be FIFO",
+        "std::collections::BinaryHeap: its push/pop (sift_up, sift_down_to_bottom) are ported literally (Model/SchedMem.lean stdPush/stdPop) and the port is PROVED to be a priority queue ordered by Task::cmp (`when` only): C11_heap_* theorems, and the scheduler theorems are restated with the port inside (..._on_binary_heap); that the port is what std does is tied by the exact pop order of every handle-level history; std::sync::mpsc is taken to be FIFO",
         "`f64 as u64` is modelled by Lean's Float.toUInt64 (compared against the real code on fractional, negative, NaN, infinite and huge times)",
         "reading of the premise: a task is later than the current sample iff trunc(when) > now at the call; requests with trunc(when) <= now are rejected by a panic on both runtimes (VM one sample later than WASM) and are reported separately",
         "program-level effects are counter increments (commute), so outputs do not depend on the order among equal times",
